@@ -395,7 +395,7 @@ func init() {
 
 // Keys for C01/C05/C08/C13: the empty name is drawn rarely because an empty
 // reference token puts the case outside the comparing domain.
-var c01Keys = []string{"a", "b", "c", "d", "a/b", "m~n", "~", "~1", "/", "~0", "100%", "sensor_reading_01_celsius", "sensor_reading_02_celsius", "0", "1", "-1", "01", "x<y", "k&v", " ", "é", "😀", `q"r`, `b\s`, "\n", "-", "e", "f"}
+var c01Keys = []string{"a", "b", "c", "d", "a/b", "m~n", "~", "~1", "/", "~0", "100%", "\x01\x7f", "\v", "sensor_reading_01_celsius", "sensor_reading_02_celsius", "0", "1", "-1", "01", "x<y", "k&v", " ", "é", "😀", `q"r`, `b\s`, "\n", "-", "e", "f"}
 
 func text2patch(op string) string { return "[" + op + "]" }
 
